@@ -13,7 +13,7 @@ V == IF Variant = "repaired" THEN Repaired ELSE Original
 Formats == {"json", "xml", "provn", "rdf"}
 (* the k-th write (nothing / half / all but one byte reaches the disk), transient or persistent *)
 (* (every later write and the flush of close() fail too); the final flush of close(); the move  *)
-Faults == {<<>>} \cup {<<[at |-> "move", k |-> 0, short |-> "none", persist |-> FALSE]>>}
+Faults == {<<>>} \cup {<<[at |-> "move", k |-> 0, short |-> "none", persist |-> p]>> : p \in BOOLEAN}   \* (refused once / every time)
           \cup {<<[at |-> "write", k |-> k, short |-> sh, persist |-> p]>> : k \in 1..4, sh \in {"none", "half", "most"}, p \in BOOLEAN}
           \cup {<<[at |-> "close", k |-> 0, short |-> sh, persist |-> FALSE]>> : sh \in {"none", "half"}}
 (* (B): every configuration x crash point as one Save call for the driver *)
